@@ -74,6 +74,34 @@ def values(seed, n):
     return out[:n]
 
 
+def lookalike(v):
+    """a value that Python's == cannot tell from v although its JSON type differs (True/1/1.0, 0.0/-0.0, ...);
+    None if there is none"""
+    if isinstance(v, bool):
+        return int(v)
+    if isinstance(v, int):
+        if v in (0, 1):
+            return bool(v)
+        return float(v) if abs(v) < 2 ** 53 else None
+    if isinstance(v, float):
+        if v == 0.0:
+            return 0.0 if math.copysign(1, v) < 0 else -0.0
+        return int(v) if v == int(v) and abs(v) < 2 ** 53 else None
+    if isinstance(v, list):
+        for i, x in enumerate(v):
+            y = lookalike(x)
+            if y is not None:
+                return v[:i] + [y] + v[i + 1:]
+        return None
+    if isinstance(v, dict):
+        for k, x in v.items():
+            y = lookalike(x)
+            if y is not None:
+                return dict(v, **{k: y})
+        return None
+    return None
+
+
 # ---- one path on the real code ----------------------------------------------------------------
 def run_path(path, value, lang):
     """-> list of [stage, tag] the value has at every stage, purity and hiding observations"""
@@ -82,13 +110,17 @@ def run_path(path, value, lang):
     form = path["form"]
     inj = path["inject"]
     persist = set(path["persist"])
-    spec_dict = {"version": 1.0, "input": ["a", {"b": {"dflt": ["marker"]}}], "vars": [{"v": ref(lang, form, "a")}, {"d": {"keep": 1}}, {"w": "old value"}],
+    lk = lookalike(value) if not (isinstance(value, float) and (math.isinf(value) or math.isnan(value))) else None
+    spec_dict = {"version": 1.0, "input": ["a", {"b": {"dflt": ["marker"]}}], "vars": [{"v": ref(lang, form, "a")}, {"d": {"keep": 1}}, {"w": "old value"},
+                                                                         # a value the published one compares equal to (==) although its type differs
+                                                                         {"lk": (lk if lk is not None else "old value")}],
                  "tasks": {
                      "t0": {"action": "core.noop"},        # a terminal task that sees the initial context only
                      "t1": {"action": "core.echo", "input": {"p": ref(lang, form, "v")},
                             "next": [{"publish": [{"q": ("<% result() %>" if lang == "yaql" else "{{ result() }}")},
                                                   {"d": {"more": 2}}, {"e": {"first": 1}},
-                                                  {"w": ("<% result() %>" if lang == "yaql" else "{{ result() }}")}],
+                                                  {"w": ("<% result() %>" if lang == "yaql" else "{{ result() }}")},
+                                                  {"lk": ("<% result() %>" if lang == "yaql" else "{{ result() }}")}],
                                       "do": ["t2", "t3"]},
                                      # a sibling transition of the same completion: it is evaluated against the
                                      # context as it was before the first transition published anything
@@ -101,7 +133,8 @@ def run_path(path, value, lang):
                      "t2b": {"action": "core.echo", "input": {"p": ref(lang, form, "e")}},
                      "t3": {"action": "core.echo", "input": {"p": ref(lang, form, "d")}, "next": [{"do": ["t4"]}]},
                      "t4": {"join": "all", "action": "core.echo", "input": {"p": ref(lang, form, "q")}}},
-                 "output": [{"o": ref(lang, form, "q")}, {"od": ref(lang, form, "d")}, {"ow": ref(lang, form, "w")}]}
+                 "output": [{"o": ref(lang, form, "q")}, {"od": ref(lang, form, "d")}, {"ow": ref(lang, form, "w")},
+                            {"olk": ref(lang, form, "lk")}]}
     spec = native_specs.WorkflowSpec(copy.deepcopy(spec_dict))
     c = conducting.WorkflowConductor(spec, inputs={"a": copy.deepcopy(value), "b": copy.deepcopy(value)})
     stages, hidden, pure, ctx0s = [], [], [], []
@@ -182,6 +215,7 @@ def run_path(path, value, lang):
     if inj == "result":
         stages.append(["output_o", tag(out.get("o", "<missing>"))])
         stages.append(["output_overwritten_var", tag(out.get("ow", "<missing>"))])
+        stages.append(["output_var_overwritten_by_lookalike", tag(out.get("olk", "<missing>"))])
         for i, cx in enumerate(c.workflow_state.contexts):
             if "q" in cx:
                 stages.append(["published_q", tag(cx["q"])])
